@@ -39,6 +39,11 @@ def eqF : Val → Val → Bool
 /-- IEEE `!=`: true as soon as an operand is NaN -/
 def neF (a b : Val) : Bool := !eqF a b
 
+/-- `abs` (NaN stays NaN) -/
+def abs : Val → Val
+  | num a => num (a.natAbs : Nat)
+  | nan => nan
+
 end Val
 
 /-- a float cell computed exactly (the EMA kernels): NaN or a rational -/
